@@ -64,8 +64,8 @@ def _decode(data, mtime, size, expect_payload=None):
         return _cls(e)
     if expect_payload is not None:
         import marshal
-        if marshal.dumps(code) != expect_payload:
-            return "OK-DIFFERENT"    # loaded, but not what was written
+        if code != marshal.loads(expect_payload):
+            return "OK-DIFFERENT"    # loaded, but not the code objects that were written
     return "OK"
 
 
@@ -106,6 +106,18 @@ def run_batch(case):
         b = imp._basilisp_bytecode(v["mtime"], v["size"], [])
         hdrs.append(list(b[:12]))
     return {"classes": out, "hdrs": hdrs}
+
+
+_CODE = [compile("1 + 1", "<c14>", "eval")]
+
+
+def run_stale(case):
+    """Write a cache for stats (m, s) with the real _basilisp_bytecode, read it against (m2, s2)."""
+    import marshal
+    imp = _importer()
+    data = imp._basilisp_bytecode(case["m"], case["s"], _CODE)
+    return {"hdr": list(data[:12]),
+            "stale": _decode(data, case["m2"], case["s2"], marshal.dumps(_CODE))}
 
 
 # ---------------------------------------------------------------------------------------
@@ -222,7 +234,19 @@ def child_main(argv):
             events.append(["decode-ok"])
         return res
 
+    orig_data = L.get_data
+    tail = a["ns"].split(".")[-1] + "." + sys.implementation.cache_tag + ".lpyc"
+
+    def w_data(self, path):
+        try:
+            return orig_data(self, path)
+        except BaseException as e:   # noqa
+            if os.path.basename(path) == tail:
+                events.append(["decode-raised", _cls(e)])
+            raise
+
     L._exec_cached_module, L._exec_module, imp._get_basilisp_bytecode = w_cached, w_exec, w_get
+    L.get_data = w_data
     if a.get("from_source"):
         # the reference load: straight through _exec_module, no cache consulted
         os.environ["BASILISP_DO_NOT_CACHE_NAMESPACES"] = "true"
@@ -273,7 +297,11 @@ def child_main(argv):
         pv = ns.find(sym.symbol("probe"))
         if pv is not None:
             try:
-                rep["probe"] = c("pr-str")(pv.value())
+                got = pv.value()
+                rep["probe"] = c("pr-str")(got)
+                if a.get("expect_probe") is not None:
+                    want = list(reader.read_str(a["expect_probe"], runtime.resolve_alias))[0]
+                    rep["probe_eq"] = bool(c("=")(want, got))
             except BaseException as e:  # noqa
                 rep["probe"] = "raised " + type(e).__name__
         kv = ns.find(sym.symbol("kwchecks"))
@@ -319,11 +347,6 @@ def _read(path):
         return None
 
 
-def _snapshot(rep):
-    """What a load leaves behind, as far as the property talks about it."""
-    return {"publics": rep.get("publics"), "probe": rep.get("probe")}
-
-
 def _same_as(ref, rep, cross_seed):
     """Is the load reported by `rep` observationally the from-source load `ref`?"""
     if rep.get("import") != "ok" or ref.get("import") != "ok":
@@ -341,61 +364,98 @@ def _same_as(ref, rep, cross_seed):
         return False
     if len(rep.get("eqs") or {}) != sum(1 for n in a if not a[n]["fn"]):
         return False
+    if cross_seed:
+        return rep.get("probe_eq", ref.get("probe") is None) is True
     return ref.get("probe") == rep.get("probe")
+
+
+_memo = {}
+
+
+def scratch_root():
+    """(directory, owned): children of one check share C14_SCRATCH (removed by the parent
+    at the end of the check); a stand-alone call gets its own directory."""
+    root = os.environ.get("C14_SCRATCH")
+    if root:
+        os.makedirs(root, exist_ok=True)
+        return root, False
+    return tempfile.mkdtemp(prefix="c14-"), True
+
+
+def cleanup(root):
+    shutil.rmtree(root, ignore_errors=True)
+    shutil.rmtree(os.path.join(PREFIX, os.path.abspath(root).lstrip(os.sep)), ignore_errors=True)
+
+
+def golden(ns, src, wseed, root):
+    """Compile `src` from source in a child (the reference load) and keep what it wrote."""
+    key = (ns, src, wseed, root)
+    if key not in _memo:
+        d = os.path.join(root, f"g{os.getpid()}-{len(_memo)}")
+        srcdir = os.path.join(d, "src")
+        f = _write_src(srcdir, ns, src)
+        cpath = cache_path(f)
+        if os.path.exists(cpath):
+            os.unlink(cpath)
+        ref = run_child({"ns": ns, "from_source": True}, wseed, srcdir)
+        _memo[key] = {"srcdir": srcdir, "f": f, "cpath": cpath, "ref": ref, "golden": _read(cpath),
+                      "size": os.stat(f).st_size}
+    return _memo[key]
+
+
+def _expect(ref):
+    return {n: e["pr"] for n, e in ref["publics"].items() if not e["fn"]}
 
 
 def run_import(case):
     ns, src = case["ns"], case["src"]
     wseed, rseed = case.get("wseed", 1), case.get("rseed", 1)
     pert = case["pert"]
-    td = tempfile.mkdtemp(prefix="c14-")
-    srcdir = os.path.join(td, "src")
+    root, owned = scratch_root()
     out = {}
     try:
-        f = _write_src(srcdir, ns, src)
-        size = os.stat(f).st_size
-        cpath = cache_path(f)
-        # 1. reference: compile from source (and write the cache) under the writer's seed
-        ref = run_child({"ns": ns, "from_source": True}, wseed, srcdir)
+        # 1. reference: compiled from source (cache written) under the writer's seed
+        g = golden(ns, src, wseed, root)
+        ref, gold, f, cpath, srcdir, size = g["ref"], g["golden"], g["f"], g["cpath"], g["srcdir"], g["size"]
         if ref.get("import") != "ok":
             return {"err": "reference-load-failed", "detail": ref}
-        golden = _read(cpath)
-        out["written_valid"] = _valid_cache(golden, SRC_MTIME, size)
-        if golden is None:
+        if gold is None:
             return {"err": "no-cache-written", "detail": ref}
-        out["golden_len"] = len(golden)
-        expect = {n: e["pr"] for n, e in ref["publics"].items() if not e["fn"]}
+        out["written_valid"] = _valid_cache(gold, SRC_MTIME, size)
+        out["golden_len"] = len(gold)
+        _write_src(srcdir, ns, src)                 # restore the pristine state
+        with open(cpath, "wb") as fh:
+            fh.write(gold)
         # 2. perturb
         kind = pert["kind"]
-        cur_src, cur_mtime = src, SRC_MTIME
-        data = golden
+        cur_mtime = SRC_MTIME
+        data = gold
         if kind == "none":
             pass
         elif kind == "missing":
             os.unlink(cpath)
             data = None
         elif kind == "trunc":            # keep n bytes (n < 12: inside the header)
-            data = golden[:pert["n"]]
+            data = gold[:pert["n"]]
         elif kind == "trunc_pay":        # keep 12 + floor(paylen * num / den) bytes
-            data = golden[:12 + (len(golden) - 12) * pert["num"] // pert["den"]]
+            data = gold[:12 + (len(gold) - 12) * pert["num"] // pert["den"]]
         elif kind == "trunc_tail":       # drop the last n bytes
-            data = golden[:len(golden) - pert["n"]]
+            data = gold[:len(gold) - pert["n"]]
         elif kind == "magic":
-            data = bytes(pert["bytes"]) + golden[4:]
+            data = bytes(pert["bytes"]) + gold[4:]
         elif kind == "hdr_mtime":        # the header says the cache was made for another mtime
-            data = golden[:4] + _w_long(SRC_MTIME + pert["delta"]) + golden[8:]
+            data = gold[:4] + _w_long(SRC_MTIME + pert["delta"]) + gold[8:]
         elif kind == "hdr_size":
-            data = golden[:8] + _w_long(size + pert["delta"]) + golden[12:]
+            data = gold[:8] + _w_long(size + pert["delta"]) + gold[12:]
         elif kind == "touch":            # the source got a new mtime, same content
             cur_mtime = SRC_MTIME + pert["delta"]
             os.utime(f, (cur_mtime, cur_mtime))
         elif kind == "edit":             # the source was edited: new content, size and mtime
-            cur_src = src + pert["append"]
             cur_mtime = SRC_MTIME + pert.get("delta", 0)
-            f = _write_src(srcdir, ns, cur_src, cur_mtime)
+            _write_src(srcdir, ns, src + pert["append"], cur_mtime)
         else:
             return {"err": "bad-case"}
-        if data is not None and data is not golden:
+        if data is not None and data is not gold:
             with open(cpath, "wb") as fh:
                 fh.write(data)
         out["pert_len"] = None if data is None else len(data)
@@ -406,57 +466,72 @@ def run_import(case):
             ref = run_child({"ns": ns, "from_source": True, "no_write": True}, wseed, srcdir)
             if _read(cpath) != saved:
                 return {"err": "reference-load-wrote-cache"}
-            expect = {n: e["pr"] for n, e in ref["publics"].items() if not e["fn"]}
+            if ref.get("import") != "ok":
+                return {"err": "reference-load-failed", "detail": ref}
+        expect = _expect(ref)
+        args = {"ns": ns, "expect": expect, "expect_probe": ref.get("probe"),
+                "no_write": bool(case.get("no_write"))}
         # 4. the load under test
-        rep = run_child({"ns": ns, "expect": expect, "no_write": bool(case.get("no_write"))},
-                        rseed, srcdir)
+        rep = run_child(args, rseed, srcdir)
         if rep.get("child_failed"):
             return {"err": "child-failed", "detail": rep}
         ev = [e[0] for e in rep.get("events", [])]
         out["loaded"] = rep.get("import") == "ok"
         out["import"] = rep.get("import")
         out["recompiled"] = "compile-from-source" in ev
-        out["cached_exc"] = next((e[1] for e in rep["events"] if e[0] == "cached-raised"), None)
         out["decode_exc"] = next((e[1] for e in rep["events"] if e[0] == "decode-raised"), None)
+        out["ran_cached"] = "decode-ok" in ev
         out["same"] = _same_as(ref, rep, cross_seed=(wseed != rseed))
         out["kwchecks"] = rep.get("kwchecks")
-        out["hash_differs"] = rep.get("hash_kw") != ref.get("hash_kw")
+        out["hash_differs"] = rep.get("hash_kw") != g["ref"].get("hash_kw")
         after = _read(cpath)
         out["cache_valid_after"] = _valid_cache(after, cur_mtime, cur_size)
         out["cache_rewritten"] = after != data
         # 5. and the cache left behind is used, unchanged, by the next process
         if case.get("again"):
-            rep2 = run_child({"ns": ns, "expect": expect}, rseed, srcdir)
+            rep2 = run_child(args, rseed, srcdir)
             ev2 = [e[0] for e in rep2.get("events", [])]
             out["again_from_cache"] = ("cached-ok" in ev2 and "compile-from-source" not in ev2
-                                       and _same_as(ref, rep2, cross_seed=(wseed != rseed)))
+                                       and _same_as(ref, rep2, cross_seed=(wseed != rseed))
+                                       and _read(cpath) == after)
         return out
     finally:
-        shutil.rmtree(td, ignore_errors=True)
-        shutil.rmtree(os.path.join(PREFIX, td.lstrip(os.sep)), ignore_errors=True)
+        if owned:
+            cleanup(root)
+
+
+XERR_SRC = """(ns {ns} (:import os builtins))
+(println "C14OUT tick")
+(when (os/getenv "C14_RAISE")
+  (throw ((python/getattr builtins (os/getenv "C14_RAISE")) "boom")))
+(def x 1)
+"""
 
 
 def run_xerr(case):
     """A VALID cache whose execution raises an exception of a class the fallback catches:
     how many times do the top-level forms before the raise run?"""
-    ns, src = case["ns"], case["src"]
-    td = tempfile.mkdtemp(prefix="c14-")
-    srcdir = os.path.join(td, "src")
+    ns = case.get("ns", "c14x.boom")
+    src = XERR_SRC.format(ns=ns)
+    root, owned = scratch_root()
     try:
-        f = _write_src(srcdir, ns, src)
-        cpath = cache_path(f)
-        w = run_child({"ns": ns, "from_source": True}, 1, srcdir)
-        if w.get("import") != "ok" or _read(cpath) is None:
-            return {"err": "reference-load-failed", "detail": w}
+        g = golden(ns, src, 1, root)
+        if g["ref"].get("import") != "ok" or g["golden"] is None:
+            return {"err": "reference-load-failed", "detail": g["ref"]}
+        _write_src(g["srcdir"], ns, src)
+        with open(g["cpath"], "wb") as fh:
+            fh.write(g["golden"])
         env = {"C14_RAISE": case["exc"]}
-        ref = run_child({"ns": ns, "from_source": True, "no_write": True, "env": env}, 1, srcdir)
-        rep = run_child({"ns": ns, "env": env}, 1, srcdir)
+        ref = run_child({"ns": ns, "from_source": True, "no_write": True, "env": env}, 1, g["srcdir"])
+        rep = run_child({"ns": ns, "env": env}, 1, g["srcdir"])
+        if rep.get("child_failed") or ref.get("child_failed"):
+            return {"err": "child-failed", "detail": [ref, rep]}
         return {"ref_import": ref.get("import"), "ref_ticks": len(ref.get("stdout", [])),
                 "import": rep.get("import"), "ticks": len(rep.get("stdout", [])),
                 "events": [e[0] for e in rep.get("events", [])]}
     finally:
-        shutil.rmtree(td, ignore_errors=True)
-        shutil.rmtree(os.path.join(PREFIX, td.lstrip(os.sep)), ignore_errors=True)
+        if owned:
+            cleanup(root)
 
 
 def run(case):
@@ -465,6 +540,8 @@ def run(case):
         return run_sweep(case)
     if k == "batch":
         return run_batch(case)
+    if k == "stale":
+        return run_stale(case)
     if k == "kwops":
         return run_kwops(case)
     if k == "import":
